@@ -454,6 +454,11 @@ func (e *Engine) mergeValues(c *Term, a, b Value) Value {
 		if y, ok := b.(*MapContent); ok {
 			return e.mergeMaps(c, x, y)
 		}
+	case *OpaqueV:
+		// stateful environment objects (channels, iterators, hash states) cannot be merged
+		if x.kind == "chan" || x.kind == "iter" || x.kind == "hashstate" {
+			e.mergeLoss = true
+		}
 	}
 	return e.mkChoice(c, a, b)
 }
